@@ -447,6 +447,8 @@ def eval_case(case):
 def judge(case, res):
     """None when the property holds for this case, else (signature, what)."""
     npo, dao = res["np"], res["da"]
+    if npo[0] == "raise" and not positional_class(case):
+        return None  # the program has no NumPy value: outside the property
     if dao[0] == "raise":
         if case["phase"] == "before":
             return None  # a refusal
@@ -466,6 +468,64 @@ def judge(case, res):
         if case["phase"] == "after" and any(isinstance(s, float) and math.isnan(s) for s in adv) and case["op"] not in ("mask_again", "mask_by_b"):
             return ("after-resolve:still-unknown", f"advertised shape {adv} still unknown after compute_chunk_sizes")
     return None
+
+
+# ---- documented defect families (DESIGN.md section 8 protocol: avoid predicate + dedicated probe)
+ZERO_CHUNK_CLASS = {
+    "argmax_u": "argreduce", "max_all": "minmax", "ravel": "reshape", "mask_again": "reshape",
+    "add": "broadcast", "where_gt": "broadcast", "maximum": "broadcast",
+}
+
+
+def classify(case, sig, zero_chunk):
+    """Map a failure to the signature of a documented family, else keep `sig`."""
+    if positional_class(case) and sig in ("wrong-result", "value-where-numpy-raises"):
+        return "unknown-elemwise-positional-blocks"
+    if case["op"] == "mask_again" and case["phase"] == "before" and sig == "wrong-result":
+        return "unknown-ndmask-order"
+    if case["phase"] == "after" and zero_chunk and sig.startswith("after-resolve:refused") and case["op"] in ZERO_CHUNK_CLASS:
+        return "resolved-zero-chunk:" + ZERO_CHUNK_CLASS[case["op"]]
+    return sig
+
+
+def _src1(shape, chunks, mul=1, off=0, mod=1 << 40):
+    return {"op": "src", "shape": list(shape), "chunks": [list(c) for c in chunks], "mul": mul, "off": off, "mod": mod}
+
+
+PROBES = [
+    # (signature, case, what)
+    ("unknown-elemwise-positional-blocks",
+     {"src": _src1([6], [[3, 3]]), "sel": {"kind": "mask_full_da", "pred": ["out", 1, 2]},  # keeps 0 | 3 4 5 -> true blocks (1, 3)
+      "known": {"n": 4, "chunks": [3, 1]}, "op": "add", "phase": "before", "opt": True, "u": 0, "o": None},
+     "elementwise op between an unknown-chunk array and another array with the same block COUNT pairs blocks by position "
+     "(length-1 blocks broadcast): x=arange(6) chunks 3; a=x[(x<1)|(x>2)]; a + from_array(arange(4)*10, chunks=(3,1)) -> [0,10,20,33,34,35], NumPy [0,13,24,35]"),
+    ("unknown-elemwise-positional-blocks",
+     {"src": _src1([6], [[3, 3]]), "sel": {"kind": "mask_full_da", "pred": ["out", 1, 2]},
+      "sel_b": {"kind": "mask_full_da", "pred": ["gt", 1]}, "op": "add", "phase": "before", "opt": False, "u": 0, "o": None},
+     "two unknown-chunk arrays with equal block counts are added block by block"),
+    ("unknown-ndmask-order",
+     {"src": _src1([3, 3], [[1, 1, 1], [2, 1]], mod=5), "sel": {"kind": "argwhere", "pred": ["mod", 4]},
+      "op": "mask_again", "phase": "before", "opt": True, "u": 0, "o": 1},
+     "full-rank boolean mask on an n-d array with unknown chunks returns the elements in block order, not NumPy's C order (only a warning is emitted)"),
+    ("resolved-zero-chunk:argreduce",
+     {"src": _src1([4], [[1, 1, 2]], mod=5), "sel": {"kind": "mask_full_da", "pred": ["gt", 2]},
+      "op": "argmax_u", "phase": "after", "opt": True, "u": 0, "o": None},
+     "argmax over an axis holding a zero-length chunk (as produced by compute_chunk_sizes) raises 'zero-size array to reduction operation'"),
+    ("resolved-zero-chunk:minmax",
+     {"src": _src1([1, 3, 4], [[1], [3], [1, 2, 1]]), "sel": {"kind": "argwhere", "pred": ["gt", 9]},
+      "op": "max_all", "phase": "after", "opt": True, "u": 0, "o": 1},
+     "max() of a resolved argwhere result with zero-length chunks raises in the concatenation of partial results"),
+    ("resolved-zero-chunk:reshape",
+     {"src": _src1([3, 3], [[1, 1, 1], [2, 1]], mod=5), "sel": {"kind": "argwhere", "pred": ["mod", 4]},
+      "op": "ravel", "phase": "after", "opt": True, "u": 0, "o": 1},
+     "ravel/reshape of an array with a zero-length chunk raises 'cannot reshape array of size 2 into shape (1,)' "
+     "(also da.from_array(x(6x2), chunks=((1,1,1,0,2,1),(1,1))).ravel())"),
+    ("resolved-zero-chunk:broadcast",
+     {"src": _src1([3], [[1, 2]], mul=7, off=2, mod=5), "sel": {"kind": "where1", "pred": ["gt", 2], "i": 0},
+      "sel_b": {"kind": "where1", "pred": ["out", 4, 4], "i": 0}, "src_b": _src1([3], [[1, 1, 1]], mul=7, off=2, mod=5),
+      "op": "where_gt", "phase": "after", "opt": True, "u": 0, "o": None},
+     "a length-1 axis split in chunks (0,1) does not broadcast against a longer axis: 'Chunks do not add up to same value'"),
+]
 
 
 def positional_class(case):
@@ -536,18 +596,15 @@ def search(ctx):
         if bad:
             ctx.fail("api:getitem-after-compute-chunk-sizes", {"case": case, "what": bad[1], "program": describe(case)}, "m=d[(d<2)|(d>3)]; m.compute_chunk_sizes(); m[::-1] differs from NumPy (defect fixed by 61fa7aa is back)")
 
-    # ---- dedicated probe of the known family (prints KNOWN-FINDING while it still fails)
-    probe = {
-        "src": {"op": "src", "shape": [6], "chunks": [[3, 3]], "mul": 1, "off": 0, "mod": 1 << 40},
-        "sel": {"kind": "mask_full_da", "pred": ["out", 1, 2]},  # keeps 0 | 3 4 5  -> true blocks (1, 3)
-        "known": {"n": 4, "chunks": [3, 1]}, "op": "add", "phase": "before", "opt": True, "u": 0, "o": None,
-    }
-    res = eval_case(probe)
-    bad = judge(probe, res)
-    ctx.count(("probe", "positional"))
-    if bad:
-        ctx.fail("unknown-elemwise-positional-blocks", {"case": probe, "what": bad[1], "program": describe(probe)},
-                 "elementwise op between an unknown-chunk array and another array with the same block COUNT pairs blocks by position")
+    # ---- dedicated probes of the documented families (print KNOWN-FINDING while they still fail)
+    for sig, pc, what in PROBES:
+        res = eval_case(pc)
+        bad = judge(pc, res)
+        ctx.count(("probe", sig))
+        if bad:
+            ctx.fail(sig, {"case": pc, "what": bad[1], "program": describe(pc)}, what)
+        else:
+            ctx.notes["probe_no_longer_fails." + sig] = ctx.notes.get("probe_no_longer_fails." + sig, 0) + 1
 
     # ---- random search
     NSEL = ctx.scale(70, 900)
@@ -605,6 +662,11 @@ def search(ctx):
                         ctx.fail("compute_chunk_sizes:shape", {"case": casea, "got_shape": list(y.shape), "want_shape": list(want.shape), "program": describe(casea)}, "shape/values after compute_chunk_sizes differ from NumPy")
         if y is None or not unknown_axes:
             continue
+        zero_chunk = any(0 in c for c in res_chunks)
+        if want.size == 0:
+            # zero-SIZE arrays are outside this check (ravel/repeat/... of empty arrays fail with known chunks too)
+            ctx.notes["avoid.zero-size-selection"] = ctx.notes.get("avoid.zero-size-selection", 0) + 1
+            continue
         u = rng.choice(unknown_axes)
         others = [i for i in range(want.ndim) if i not in unknown_axes]
         o = rng.choice(others) if others else None
@@ -615,6 +677,11 @@ def search(ctx):
         cases = []
         for nm in names:
             for phase in ("before", "after"):
+                if nm == "mask_again" and want.ndim > 1:
+                    continue  # family unknown-ndmask-order (before) / dask reshape limits (after): dedicated probe
+                if phase == "after" and zero_chunk and nm in ZERO_CHUNK_CLASS:
+                    ctx.notes["avoid.resolved-zero-chunk"] = ctx.notes.get("avoid.resolved-zero-chunk", 0) + 1
+                    continue  # families resolved-zero-chunk:*: dedicated probes
                 cases.append({"src": src, "sel": sel, "op": nm, "phase": phase, "opt": rng.random() < 0.6, "u": u, "o": o})
         # binary: second selection of the same source (equal block counts), of a re-chunked source
         # (unequal counts), and a known partner
@@ -634,8 +701,7 @@ def search(ctx):
                     sel_b.pop("vchunks", None)
                 nm = rng.choice(list(BINARY_OPS))
                 for phase in ("before", "after"):
-                    c = {"src": src, "sel": sel, "sel_b": sel_b, "op": nm, "phase": phase, "opt": rng.random() < 0.6, "u": u, "o": o,
-                         "policy": rng.choice([None, None, "coarse", "refine"])}
+                    c = {"src": src, "sel": sel, "sel_b": sel_b, "op": nm, "phase": phase, "opt": rng.random() < 0.6, "u": u, "o": o}
                     if src_b is not src:
                         c["src_b"] = src_b
                     cases.append(c)
@@ -649,7 +715,7 @@ def search(ctx):
                     kc = [b - a for a, b in zip([0] + cuts, cuts + [n])]
                 for phase in ("before", "after"):
                     cases.append({"src": src, "sel": sel, "known": {"n": n, "chunks": kc}, "op": rng.choice(sorted(ELEMWISE_BINARY)), "phase": phase,
-                                  "opt": rng.random() < 0.6, "u": 0, "o": None, "policy": rng.choice([None, None, "coarse", "refine"])})
+                                  "opt": rng.random() < 0.6, "u": 0, "o": None})
         for case in cases:
             res = eval_case(case)
             outcome = "refused" if res["da"][0] == "raise" else "value"
@@ -661,12 +727,19 @@ def search(ctx):
             if not bad:
                 continue
             sig, what = bad
-            if positional_class(case) and sig in ("wrong-result", "value-where-numpy-raises"):
-                sig = "unknown-elemwise-positional-blocks"
-            else:
+            zc = zero_chunk
+            if case.get("sel_b") and not zc:
+                try:
+                    bb = build_sel(case["sel_b"], case.get("src_b", src), da)
+                    bb.compute_chunk_sizes()
+                    zc = any(0 in c for c in bb.chunks)
+                except Exception:
+                    pass
+            sig2 = classify(case, sig, zc)
+            if sig2 == sig:
                 case = minimise(case, sig)
             ctx.sample({"failing": describe(case)})
-            ctx.fail(sig, {"case": case, "what": what, "program": describe(case)}, what)
+            ctx.fail(sig2, {"case": case, "what": what, "program": describe(case)}, what)
 
 
 def minimise(case, sig):
